@@ -193,3 +193,32 @@ func init() {
 		Thorough: tierSpec{Harnesses: []harnessSpec{{Func: gp + "internal/zzverif.VC17", Discover: 3, Digits: 5, Reach: []string{"c17.accepted"}}}},
 	}
 }
+
+func init() {
+	properties["C15"] = &propSpec{ID: "C15",
+		Quick:    tierSpec{Harnesses: []harnessSpec{{Func: gp + "internal/zzverif.VC15", Discover: 1, Reach: []string{"c15.accepted"}}}},
+		Thorough: tierSpec{Harnesses: []harnessSpec{{Func: gp + "internal/zzverif.VC15", Discover: 1, Reach: []string{"c15.accepted"}}}},
+	}
+}
+
+func init() {
+	properties["C12"] = &propSpec{ID: "C12",
+		Quick:    tierSpec{Harnesses: []harnessSpec{{Func: gp + "internal/zzverif.VC12", Discover: 3, Reach: []string{"c12.accepted"}}}},
+		Thorough: tierSpec{Harnesses: []harnessSpec{{Func: gp + "internal/zzverif.VC12", Discover: 3, Params: map[string]int{"full": 1}, Reach: []string{"c12.accepted"}}}},
+	}
+}
+
+func init() {
+	hs := []harnessSpec{
+		{Func: gp + "internal/zzverif.VC13Stmt", Discover: 1, Reach: []string{"c13.ran"}},
+		{Func: gp + "internal/zzverif.VC13Sym", Discover: 1, Digits: 5, Reach: []string{"c13s.ran"}},
+		{Func: gp + "internal/zzverif.VC13Byte", Discover: 2, Reach: []string{"c13b.ran"}},
+	}
+	ht := append([]harnessSpec{}, hs...)
+	ht[2] = harnessSpec{Func: gp + "internal/zzverif.VC13Byte", Discover: 2, Params: map[string]int{"allpos": 1}, Reach: []string{"c13b.ran"}}
+	properties["C13"] = &propSpec{ID: "C13", Quick: tierSpec{Harnesses: hs}, Thorough: tierSpec{Harnesses: ht}}
+}
+
+func init() {
+	properties["DBG"] = &propSpec{ID: "DBG", Quick: tierSpec{Harnesses: []harnessSpec{{Func: gp + "internal/zzverif.VDbg", Discover: 1}}}}
+}
